@@ -103,6 +103,11 @@ class Mon:
         self.ctx = root.create_child_context()
         self.ticker = hooks.Ticker()
         self.ticker.register(self.ctx)
+        # the legacy function set (its filtering indexer `coll[predicate]` is a streaming operator too)
+        from yaql import legacy as ylegacy
+        self.legacy_eng = ylegacy.YaqlFactory().create(options={'yaql.convertOutputData': False})
+        self.legacy_ctx = ylegacy.create_context().create_child_context()
+        self.ticker.register(self.legacy_ctx)
         self.reach = hooks.Reach()
         for o in cat.build(root):
             mod = o.code_owner.__module__.split('.')[-1]
@@ -194,7 +199,24 @@ def pull(it, k):
     return out, False
 
 
-def run_case(mon, rec, text, model, terminal, names, k, label):
+def legacy_cases(rng):
+    """the legacy filtering indexer and its combinations with the streaming operators of the legacy context"""
+    from vmon.model import library as ml
+    K = rng.choice((0, 3, 7))
+    lam = ml.Lam('$ > %d' % K, lambda x: x > K)
+
+    def flt(src, lam=None):
+        l = lam or ml.Lam('', lambda x: x > K)
+        return (x for x in src if l(x)), [l]
+    yield '$src[$ > %d]' % K, lambda src: (flt(src)[0], []), False, ['legacy-filter-indexer']
+    l1 = lam.fresh()
+    yield '$src[tick(1, $ > %d)]' % K, (lambda src, l1=l1: flt(src, l1)), False, ['legacy-filter-indexer']
+    yield '$src[$ > %d].select($ * 2)' % K, lambda src: ((x * 2 for x in flt(src)[0]), []), False, ['legacy-filter-indexer', 'select']
+    yield '$src.select($ + 1)[$ > %d]' % K, lambda src: (flt(x + 1 for x in src)[0], []), False, ['legacy-filter-indexer', 'select']
+    yield '$src[$ > %d][$ mod 2 = 0]' % K, lambda src: ((x for x in flt(src)[0] if x % 2 == 0), []), False, ['legacy-filter-indexer']
+
+
+def run_case(mon, rec, text, model, terminal, names, k, label, world='default'):
     rec.count('cases')
     for nme in names:
         rec.count('op.' + nme)
@@ -221,12 +243,12 @@ def run_case(mon, rec, text, model, terminal, names, k, label):
     mticks = sum(l.calls for l in lams)
     # --- real side
     rsrc = hooks.CountingSource(None, hard_cap=HARD_CAP, name='$src')
-    ctx = mon.ctx.create_child_context()
+    ctx = (mon.legacy_ctx if world == 'legacy' else mon.ctx).create_child_context()
     ctx['src'] = rsrc
     mon.ticker.reset()
-    rp = {'kind': 'case', 'text': text, 'k': k, 'label': label}
+    rp = {'kind': 'case', 'text': text, 'k': k, 'label': label, 'world': world}
     try:
-        st = mon.eng(text)
+        st = (mon.legacy_eng if world == 'legacy' else mon.eng)(text)
         res = st.evaluate(context=ctx)
         if terminal:
             rval = ('value', res)
@@ -291,6 +313,10 @@ def run_shard(spec, rec):
                     for k in (0, 1, 2, 5):
                         text, model, terminal, names = _single(rng, st)
                         run_case(mon, rec, text, model, terminal, names, k, 'single')
+            for rep in range(10):
+                for text, model, terminal, names in legacy_cases(rng):
+                    for k in (0, 1, 2, 5):
+                        run_case(mon, rec, text, model, terminal, names, k, 'legacy', world='legacy')
             rec.sample({'text': text, 'k': k})
             return
         for i in range(spec['count']):
